@@ -5,6 +5,7 @@ each relation preserves the representation invariant."""
 S = {
     'slots.new': dict(requires=[], ensures=[('wf', ['C14'], 'wf(r, Seq::empty())'), ('empty', ['C14'], 'r.slots@.len() == 0')], body_serves=['C14']),
     'slots.add': dict(
+        param_names=['p'],
         ghost_param='Ghost(free): Ghost<Seq<int>>',
         requires=['wf(*old(self), free)', 'old(self).slots@.len() < usize::MAX - 1'],
         ensures=[('rel', ['C14'], 'add_post(*old(self), *final(self), p, r as int)'),
@@ -13,6 +14,7 @@ S = {
                  ('others', ['C14'], 'others_same(*old(self), *final(self), r as int)')],
         body_serves=['C14']),
     'slots.inc': dict(
+        param_names=['idx'],
         ghost_param='Ghost(free): Ghost<Seq<int>>',
         requires=['wf(*old(self), free)', 'idx < old(self).slots@.len()', 'old(self).slots@[idx as int] is Occupied', 'old(self).slots@[idx as int]->ref_count < usize::MAX'],
         ensures=[('rel', ['C14'], 'inc_post(*old(self), *final(self), idx as int)'),
@@ -20,6 +22,7 @@ S = {
                  ('others', ['C14'], 'others_same(*old(self), *final(self), idx as int) && final(self).slots@.len() == old(self).slots@.len()')],
         body_serves=['C14']),
     'slots.dec': dict(
+        param_names=['idx'],
         ghost_param='Ghost(free): Ghost<Seq<int>>',
         requires=['wf(*old(self), free)', 'idx < old(self).slots@.len()', 'old(self).slots@[idx as int] is Occupied'],
         ensures=[('rel', ['C14'], 'dec_post(*old(self), *final(self), idx as int)'),
